@@ -127,7 +127,11 @@ def excel_rows(source_path, sheet=1):
     location = errors.Location(source_path, has_cell=True)
     try:
         with xlrd.open_workbook(source_path) as book:
-            sheet = book.sheet_by_index(0)
+            if sheet > book.nsheets:
+                raise errors.DataFormatError(
+                    "Excel file must contain at least %d sheet(s) instead of just %d" % (sheet, book.nsheets), location
+                )
+            sheet = book.sheet_by_index(sheet - 1)
             datemode = book.datemode
             for y in range(sheet.nrows):
                 row = []
